@@ -62,6 +62,7 @@ type Exec struct {
 	lockAccesses int
 	lockViolations []string
 	ownerViolations []string
+	mapMut          int // > 0 while the map operand of an insert / delete is evaluated
 	escaped      map[string]bool
 }
 
